@@ -154,7 +154,7 @@ def run(ctx):
     for c in range(NRED):
         n = rng.choice([1, 2, 3, 4, 5, 7])
         bc = rand_count(rng)
-        mode = rng.choice(['cluster', 'neartie_top', 'neartie_bottom', 'random', 'neartie_top', 'neartie_bottom'])
+        mode = rng.choice(['cluster', 'neartie_top', 'neartie_bottom', 'random', 'neartie_top', 'neartie_bottom', 'straddle', 'straddle'])
         ctx.count('red_mode:' + mode)
         cs, fs = [], []
         if mode in ('neartie_top', 'neartie_bottom') and n >= 2:
@@ -174,6 +174,21 @@ def run(ctx):
                 cs.append(float(-sgn * rng.choice([0, 1, 1000, big // 3, big]))); fs.append(rand_frac(rng))
             if rng.random() < 0.5:            # far element first
                 cs = cs[ties:] + cs[:ties]; fs = fs[ties:] + fs[:ties]
+        elif mode == 'straddle' and n >= 2:
+            # near-ties written with DIFFERENT counts: (k, 1/2 - a) and (k+1, -1/2 + b) with a, b tiny multiples of 2^-53
+            # (their single-double cycle values tie, the two-part values do not), at counts where that matters
+            big = rng.choice([2 ** 40, 2 ** 45, 2 ** 52 - 4, 2 ** 51 + 6, abs(bc) + 2 ** 30]) * rng.choice([1, -1])
+            while len(cs) < n:
+                r = rng.random()
+                if r < 0.45:
+                    cs.append(float(big)); fs.append(0.5 - rng.choice([0, 1, 2, 5, 1 << 8, 1 << 20, 1 << 30]) * 2.0 ** -53)
+                elif r < 0.9:
+                    cs.append(float(big + 1)); fs.append(-0.5 + rng.choice([0, 1, 3, 4, 1 << 9, 1 << 21, 1 << 31]) * 2.0 ** -53)
+                else:
+                    cs.append(float(rand_count(rng))); fs.append(rand_frac(rng))
+            if abs(big) > 2 ** 51:        # grid of the cycle value is 0.5 there: also plain +-0.3 pairs
+                cs[0], fs[0] = float(big), 0.3
+                cs[1], fs[1] = float(big + 1), -0.3
         else:
             for k in range(n):
                 if mode == 'cluster' or rng.random() < 0.6:
